@@ -54,7 +54,7 @@ func init() {
 			NRandom: 60, MaxTraces: 60,
 			Gen:   genParams{NBlob: 12, NTree: 14, NCommit: 12, NTag: 5, MaxEnt: 4, MaxBlob: 300, Merges: true, RootKinds: "mixed"},
 			Fails: scanFails["C01"],
-			Extra: append(append(wideCases("c01"), rootKindCases("c01")...), scaleCases("c01")...),
+			Extra: append(append(append(wideCases("c01"), rootKindCases("c01")...), scaleCases("c01")...), tagChainCases("c01")...),
 			Rule:  "TLC family Mixed (<=2 blobs, 2 trees, 2 commits, 1 tag; roots of every kind, walked or not, references or ROOT arguments) x all delivery orders, every behaviour replayed into sizes.Graph; plus materialised repositories (TLC graphs and random graphs with merges, shared subtrees, tags of anything, noise, unselected refs, ROOT arguments) scanned by the binary; distinct = distinct (graph, roots, order) / (graph, arguments)",
 		}
 		if !quick(c) {
